@@ -7,11 +7,14 @@ PROP = {
     "level": "exploration",
     "technique": "runtime monitoring in synctest bubbles: real sender frames replayed in scripted orders, "
                  "reference reassembly model, table census under the conn's own mutex after every step, race detector",
-    "parallel": 2,
+    "parallel": 3,
     "jobs": [
         job("gecko", "extras", "./obfs/", "obfs", _FILES,
-            "^TestVerifC14(Wire|Reassemble|Interleave|Bounds)$",
-            ["gecko-wire", "gecko-reassemble", "gecko-interleave", "gecko-bounds"], race=False,
+            "^TestVerifC14(Wire|Reassemble|Interleave)$",
+            ["gecko-wire", "gecko-reassemble", "gecko-interleave"], race=False,
+            timeout_quick=600, timeout_thorough=3600),
+        job("gecko-bounds", "extras", "./obfs/", "obfs", _FILES,
+            "^TestVerifC14Bounds$", ["gecko-bounds"], race=False,
             timeout_quick=600, timeout_thorough=3600),
         job("gecko-race", "extras", "./obfs/", "obfs", _FILES,
             "^TestVerifC14Race$", ["gecko-race"], race=True,
@@ -28,9 +31,16 @@ PROP = {
              "ID counters start anywhere (single-source worlds go round the ID space several times); chunks of up to 8 "
              "pending messages per source interleaved, duplicated, lost, mixed with short-header packets, ill-formed "
              "frames and virtual-time steps; one world in six does not avoid cap/collision situations (outcomes recorded, "
-             "state still judged). bounds: forged-with-key floods (9..300 IDs from one source; 4097+ sources; 8 IDs x 530 "
-             "sources), ID walks with strides 1/3/127/129/255 over several trips round the ID space, chunk arrival at "
-             "ages TTL-1ns/TTL/TTL+GC-1ms/TTL+GC/+1ns relative to sweeper ticks. race: one conn under 3 readers, 4 "
+             "state still judged). bounds: forged-with-key floods: 9..300 IDs from one source; global-cap floods "
+             "parameterised by (IDs per source 1..8, chunk count, chunks already received): 4247 sources x 1 chunk, "
+             "8 IDs x 540 sources, and floods whose >= 4397 entries over >= 600 sources are ALL one chunk short of "
+             "completion (1 of 2, 2 of 3, 7 of 8, mixed counts), with the table census after every frame (full census "
+             "every 32nd frame and at every inspection; in between: overall bound, sum(perSource)==len(table), exact "
+             "census of the source just served); ID walks with strides 1/3/127/129/255 over several trips round the "
+             "ID space; chunk arrival at ages TTL-1ns/TTL/TTL+GC-1ms/TTL+GC/+1ns relative to sweeper ticks; pin: an "
+             "incomplete message keeps receiving duplicates of chunks it already has (sometimes a further new chunk) at "
+             "intervals below the TTL while other sources' traffic flows, over 4 cycles (> 4 TTLs); it must be gone "
+             "TTL+GC after its FIRST chunk. race: one conn under 3 readers, 4 "
              "feeders, 3 writers, GC and a table inspector. A case is non-trivial when a long-header packet was actually "
              "fragmented / chunks reached the reassembly table; distinct = distinct (sizes, chunk count, arrival order) "
              "or scenario script."),
@@ -40,6 +50,9 @@ PROP = {
         "a chunk that arrives between TTL and TTL+GC-period after the first chunk of its message, or while its source "
         "already has 8 pending messages, has no outcome fixed by the property: recorded, not judged (state bounds and the "
         "perSource census are judged after every step regardless)",
+        "a message's TTL runs from its first chunk (the deadline is fixed when the entry is created; later frames for "
+        "the same key, duplicates included, are not activity that may keep it pending): an incomplete message must be "
+        "absent from the table once more than TTL + one GC period (12 s) has passed since its first chunk",
         "a second delivery is accepted only when every chunk of a message arrived a second time after its delivery",
         "Salamander (C13's subject) is used as the transport of forged frames and to open captured datagrams",
         "sender randomness (chunk count, padding) comes from crypto/rand and is sampled, not enumerated; replay re-runs "
